@@ -1,6 +1,7 @@
 package safeio
 
 import (
+	"fmt"
 	"context"
 	"errors"
 	"io"
@@ -17,6 +18,7 @@ type vReader struct {
 	content    []byte
 	pos        int
 	failAt     int // fail once `failAt` bytes were delivered (-1: never)
+	failWith   error
 	cancel     context.CancelFunc
 	cancelAt   int // cancel the context inside the Read call number cancelAt (1-based; 0: never)
 	calls      int
@@ -33,6 +35,9 @@ func (r *vReader) Read(p []byte) (int, error) {
 		r.cancel()
 	}
 	if r.failAt >= 0 && r.pos >= r.failAt {
+		if r.failWith != nil {
+			return 0, r.failWith
+		}
 		return 0, errVerifIO
 	}
 	if r.pos >= len(r.content) {
@@ -119,8 +124,14 @@ func vSetup() (context.Context, context.CancelFunc, *vReader, []byte) {
 		cancel()
 	case 2: // cancelled during the j-th Read
 		r.cancelAt = verif.Len("cancelAt", 1, L+1)
-	case 3: // source fails after k bytes
+	case 3: // source fails after k bytes: a plain I/O error, or the stream ending abruptly
 		r.failAt = verif.Len("failAt", 0, L)
+		switch verif.Choice("failWith", 3) {
+		case 1:
+			r.failWith = io.ErrUnexpectedEOF
+		case 2:
+			r.failWith = fmt.Errorf("verif: truncated stream: %w", io.EOF)
+		}
 	}
 	return ctx, cancel, r, content
 }
@@ -144,6 +155,12 @@ func VerifC09_ReadAtMost() {
 	if err == nil {
 		verif.Observe("got", got)
 		verif.Assert("success_delivers_exactly_the_prefix", len(got) == want)
+	}
+	if r.failAt >= 0 && r.failAt < want {
+		verif.Assert("a_source_failing_early_is_reported", err != nil)
+		if r.failWith != nil {
+			verif.Assert("an_abrupt_end_is_the_eof_kind", commonerrors.Any(err, commonerrors.ErrEOF))
+		}
 	}
 	if preCancelled {
 		verif.Assert("already_cancelled_is_reported", commonerrors.Any(err, commonerrors.ErrCancelled) && r.calls == 0)
